@@ -47,7 +47,7 @@ struct Obs {
 
 /// pttl_script: Some(bytes) = the source answers PTTL with this integer payload; None = the real
 /// stand-in behaviour with `real_ttl_ms` set on the key.
-async fn run_one(path: Path, pttl_script: Option<Vec<u8>>, real_ttl_ms: Option<u64>, scan_count: u64) -> Result<Obs, String> {
+async fn run_one(path: Path, pttl_script: Option<Vec<u8>>, real_ttl_ms: Option<u64>, scan_count: u64, slow_ms: u64) -> Result<Obs, String> {
     let cfg = BrokerCfg { ordered: false, migration_limit: 0, failure_quorum: 1, failure_ttl: 100000 };
     let sim = ClusterSim::new(&[2, 2], &cfg, &ProxyOpts::default(), None);
     for op in [Op::AddCluster { name: "c1".into(), n: 4 }, Op::AutoAddNodes { name: "c1".into(), n: 4 }] {
@@ -93,24 +93,58 @@ async fn run_one(path: Path, pttl_script: Option<Vec<u8>>, real_ttl_ms: Option<u
         if hold_scan && r.control && c0 == "SCAN" {
             return Gate::Hold;
         }
+        // a slow source: its answers to PTTL / DUMP take `slow_ms` of real and of virtual time
+        if slow_ms > 0 && (c0 == "PTTL" || c0 == "DUMP") {
+            return Gate::Hold;
+        }
         Gate::Pass
     })));
     sim.sync_until_converged(false, 4).await?;
     sim.world.advance_ms(60).await;
     let mark = 0usize;
     let mut client_reply = String::new();
-    match path {
-        Path::Scan => {
-            sim.world.advance_ms(200).await;
+    if slow_ms == 0 {
+        match path {
+            Path::Scan => {
+                sim.world.advance_ms(200).await;
+            }
+            Path::Pull => {
+                client_reply = show_resp(&sim.world.client(&mig.dst_proxy, &vec![b"GET".to_vec(), key.clone()]).await);
+                sim.world.advance_ms(20).await;
+            }
+            Path::Push => {
+                client_reply = show_resp(&sim.world.client(&mig.dst_proxy, &vec![b"EXPIRE".to_vec(), key.clone(), b"1000".to_vec()]).await);
+                sim.world.advance_ms(20).await;
+            }
         }
-        Path::Pull => {
-            client_reply = show_resp(&sim.world.client(&mig.dst_proxy, &vec![b"GET".to_vec(), key.clone()]).await);
-            sim.world.advance_ms(20).await;
+    } else {
+        let trigger = match path {
+            Path::Scan => None,
+            Path::Pull => Some(vec![b"GET".to_vec(), key.clone()]),
+            Path::Push => Some(vec![b"EXPIRE".to_vec(), key.clone(), b"1000".to_vec()]),
+        };
+        let reply = std::sync::Arc::new(std::sync::Mutex::new(None::<String>));
+        if let Some(c) = trigger {
+            let (w, p, r2) = (sim.world.clone(), mig.dst_proxy.clone(), reply.clone());
+            tokio::spawn(async move {
+                let r = w.client(&p, &c).await;
+                *r2.lock().unwrap() = Some(show_resp(&r));
+            });
         }
-        Path::Push => {
-            client_reply = show_resp(&sim.world.client(&mig.dst_proxy, &vec![b"EXPIRE".to_vec(), key.clone(), b"1000".to_vec()]).await);
-            sim.world.advance_ms(20).await;
+        for _ in 0..40 {
+            sim.world.settle().await;
+            let held: Vec<u64> = sim.world.pending_infos().iter().filter(|p| p.cmds.first().and_then(|c| c.first()).map(|b| b.eq_ignore_ascii_case(b"PTTL") || b.eq_ignore_ascii_case(b"DUMP")).unwrap_or(false)).map(|p| p.id).collect();
+            if held.is_empty() {
+                sim.world.advance_ms(5).await;
+                continue;
+            }
+            std::thread::sleep(std::time::Duration::from_millis(slow_ms));
+            sim.world.advance_ms(slow_ms).await;
+            for id in held {
+                sim.world.release(id, Release::Serve);
+            }
         }
+        client_reply = reply.lock().unwrap().clone().unwrap_or_else(|| "no reply".into());
     }
     let ev = sim.world.events_since(mark);
     let restore = ev.iter().find(|e| e.kind == "redis" && e.at == mig.dst_node && e.cmd.first().map(|c| c.eq_ignore_ascii_case(b"RESTORE")).unwrap_or(false) && e.cmd.get(1) == Some(&key));
@@ -139,24 +173,28 @@ pub fn run(cli: &Cli) -> (Value, Vec<Violation>) {
         ("+5", b"+5".to_vec()),
         ("-0", b"-0".to_vec()),
     ];
-    let mut jobs: Vec<(Path, Option<(String, Vec<u8>)>, Option<u64>, u64)> = vec![];
+    let mut jobs: Vec<(Path, Option<(String, Vec<u8>)>, Option<u64>, u64, u64)> = vec![];
     for path in [Path::Scan, Path::Pull, Path::Push] {
         for (n, r) in &replies {
-            jobs.push((path, Some((n.to_string(), r.clone())), None, 16));
+            jobs.push((path, Some((n.to_string(), r.clone())), None, 16, 0));
         }
         // real ttl round trips (no script): persistent, 5 s, 1 ms-resolution values
         for ttl in [None, Some(5000u64), Some(100_000), Some(400)] {
             for sc in if thorough { vec![1u64, 16] } else { vec![16u64] } {
-                jobs.push((path, None, ttl, sc));
+                jobs.push((path, None, ttl, sc, 0));
             }
+        }
+        // a source that answers more slowly than the key has left to live
+        for (n, r) in replies.iter().filter(|x| ["1", "2", "999", "-1"].contains(&x.0)) {
+            jobs.push((path, Some((n.to_string(), r.clone())), None, 16, 12));
         }
     }
     let mut hs = vec![];
     for (ji, job) in jobs.into_iter().enumerate() {
         hs.push(std::thread::spawn(move || {
-            let (path, script, ttl, sc) = job.clone();
+            let (path, script, ttl, sc, slow) = job.clone();
             let s2 = script.clone().map(|x| x.1);
-            let r = vh::det::on_fresh_thread(ji as u64 + 1, 32 << 20, move || run_sim(run_one(path, s2, ttl, sc)));
+            let r = vh::det::on_fresh_thread(ji as u64 + 1, 32 << 20, move || run_sim(run_one(path, s2, ttl, sc, slow)));
             (job, r)
         }));
     }
@@ -165,11 +203,12 @@ pub fn run(cli: &Cli) -> (Value, Vec<Violation>) {
     let mut classes = std::collections::BTreeSet::new();
     let mut samples = vec![];
     for h in hs {
-        let ((path, script, ttl, sc), r) = h.join().expect("join");
+        let ((path, script, ttl, sc, slow), r) = h.join().expect("join");
+        let slow_tag = if slow > 0 { ":slow-source" } else { "" };
         n += 1;
         let mut add = |key: String, desc: String| {
             if viol.iter().filter(|v| v.key == key).count() < 1 {
-                viol.push(Violation { key, desc, replay: json!({"path": format!("{:?}", path), "pttl_reply": script.as_ref().map(|s| s.0.clone()), "real_ttl_ms": ttl, "scan_count": sc}) });
+                viol.push(Violation { key, desc, replay: json!({"path": format!("{:?}", path), "pttl_reply": script.as_ref().map(|s| s.0.clone()), "real_ttl_ms": ttl, "scan_count": sc, "source_delay_ms": slow}) });
             }
         };
         let obs = match r {
@@ -185,7 +224,7 @@ pub fn run(cli: &Cli) -> (Value, Vec<Violation>) {
         };
         let _ = obs.panicked;
         let label = script.as_ref().map(|s| s.0.clone()).unwrap_or_else(|| format!("real ttl {:?}", ttl));
-        classes.insert(format!("{:?}/{}/restore-ttl={:?}", path, label, obs.restore_ttl));
+        classes.insert(format!("{:?}/{}/slow={}/restore-ttl={:?}", path, label, slow, obs.restore_ttl));
         if samples.len() < 6 {
             samples.push(json!({"path": format!("{:?}", path), "source_pttl_reply": label, "restore_ttl_argument_at_destination": obs.restore_ttl, "client_reply": obs.client_reply}));
         }
@@ -200,7 +239,7 @@ pub fn run(cli: &Cli) -> (Value, Vec<Violation>) {
                     }
                     "-1" => {
                         if t.as_deref() != Some("0") {
-                            add(format!("{:?}:persistent-key-not-restored-as-persistent", path), format!("PTTL -1 but RESTORE ttl argument {:?}", t));
+                            add(format!("{:?}:persistent-key-not-restored-as-persistent{}", path, slow_tag), format!("PTTL -1 but RESTORE ttl argument {:?}", t));
                         }
                     }
                     "0" => match t.as_deref().and_then(|x| x.parse::<i64>().ok()) {
@@ -211,7 +250,7 @@ pub fn run(cli: &Cli) -> (Value, Vec<Violation>) {
                         let p: i64 = name.parse().unwrap();
                         match t.as_deref().and_then(|x| x.parse::<i64>().ok()) {
                             Some(x) if x >= 1 && x <= p => {}
-                            _ => add(format!("{:?}:ttl-not-preserved:pttl-reply-{}", path, name), format!("PTTL {} but RESTORE ttl argument {:?}", name, t)),
+                            _ => add(format!("{:?}:ttl-not-preserved:pttl-reply-{}{}", path, name, slow_tag), format!("PTTL {} but RESTORE ttl argument {:?}", name, t)),
                         }
                     }
                     _ => {} // malformed replies: only "no panic" is required (outside Redis' range)
@@ -240,7 +279,7 @@ pub fn run(cli: &Cli) -> (Value, Vec<Violation>) {
     let cov = json!({
         "evaluations": n,
         "distinct_nontrivial": classes.len().max(2),
-        "rule": "case = transfer path {background scan, on-demand pull (GET at the destination proxy while the scan is held), push before a deleting command (EXPIRE at the destination proxy => UMSYNC)} x PTTL reply of the source {-2,-1,0,1,2,999,2^31,2^63-1,2^63,'abc','','+5','-0'} scripted on the source stand-in, plus real TTL round trips {persistent, 400 ms, 5 s, 100 s}; every case is a complete real migration on 4 real proxies; distinct = distinct (path, reply, RESTORE ttl argument) triples",
+        "rule": "case = transfer path {background scan, on-demand pull (GET at the destination proxy while the scan is held), push before a deleting command (EXPIRE at the destination proxy => UMSYNC)} x PTTL reply of the source {-2,-1,0,1,2,999,2^31,2^63-1,2^63,'abc','','+5','-0'} scripted on the source stand-in, plus real TTL round trips {persistent, 400 ms, 5 s, 100 s}, plus PTTL replies {-1,1,2,999} from a source whose PTTL/DUMP answers take 12 ms of real and virtual time (longer than the key has left); every case is a complete real migration on 4 real proxies; distinct = distinct (path, reply, RESTORE ttl argument) triples",
         "samples": samples,
         "observed_classes": classes,
         "exhaustive": true,
